@@ -23,6 +23,14 @@ def inWindow (ts now : Int) : Prop := now - 432 ≤ ts ∧ ts ≤ now + 432
 
 instance (ts now : Int) : Decidable (inWindow ts now) := by unfold inWindow; infer_instance
 
+/-- The rotation cadence is safe: rotation trigger `trig`, check period `per` (slots), acceptance
+half-width `half`, window length `win`, rotation step `shift`. -/
+def cadenceSafe (trig per half win shift : Int) : Bool :=
+  decide (trig + per + half < win ∧ half + shift ≤ trig)
+
+/-- A duration in nanoseconds as a number of timeslots, rounded up. -/
+def slotsOfNs (ns : Int) : Int := (ns + (300 * 1000000000 - 1)) / (300 * 1000000000)
+
 /-- Days since 1970-01-01 to (year, month, day), proleptic Gregorian calendar
 (the standard era-based algorithm, integer arithmetic only). -/
 def civilFromDays (z0 : Int) : Int × Int × Int :=
